@@ -172,8 +172,8 @@ def _compute_headers(cols, col_indices):
 		if idx not in shown:
 			continue
 
-		# Display name
-		disp = col._name or ""
+		# Display name (None for a column without a name: '' is a name like any other)
+		disp = col._name
 		display_names.append(disp)
 
 		sanitized_names.append(san)
@@ -217,7 +217,7 @@ def _header_rows(display_names, sanitized_names, dtypes):
 	Returns (header_rows, show_types_in_header) where show_types_in_header indicates
 	whether types are heterogeneous and should be shown in header instead of footer.
 	"""
-	any_display = any(n for n in display_names if n is not _COL_DOTS)
+	any_display = any(n is not None for n in display_names if n is not _COL_DOTS)
 	
 	# Only show dot-access row if there's a structural change, not just case
 	any_structural_change = any(
@@ -238,10 +238,13 @@ def _header_rows(display_names, sanitized_names, dtypes):
 		for name in display_names:
 			if name is _COL_DOTS:
 				row.append("...")
+			elif name is None:
+				# (no stored name: nothing to show - not '', which is the name of another column)
+				row.append("")
 			elif _needs_quote(name):
 				row.append(repr(name))
 			else:
-				row.append(name if name else "")
+				row.append(name)
 		rows.append(row)
 
 	# Row 2: sanitized names (only if structural change or no display names)
@@ -330,7 +333,7 @@ def _repr_vector(v) -> str:
 	# Compute width: max of data and header (if present)
 	data_width = max(len(s) for s in formatted) if formatted else 0
 	header_width = 0
-	if v._name:
+	if v._name is not None:
 		header_text = repr(v._name) if _needs_quote(v._name) else v._name
 		header_width = len(header_text)
 	
@@ -345,7 +348,7 @@ def _repr_vector(v) -> str:
 	lines = []
 
 	# Optional vector name
-	if v._name:
+	if v._name is not None:
 		lines.append(header_text.ljust(width) if not v._dtype or v._dtype.kind not in (int, float) else header_text.rjust(width))
 
 	lines.extend(formatted)
